@@ -217,6 +217,32 @@ def check_construction(rep, r):
     if not ok:
         rep.violation('failing-input', {'op': 'construction', 'why': 'acceptable elements not all kept in order / not converted to TRS'})
     rep.count()
+    # "built or extended from ANY iterable": tuples, generators, iterators, map objects, reversed views, dict views, deques
+    import collections as _c
+    kinds = {
+        'list': lambda xs: list(xs), 'tuple': lambda xs: tuple(xs), 'generator': lambda xs: (x for x in xs),
+        'iter()': lambda xs: iter(list(xs)), 'map': lambda xs: map(lambda x: x, xs), 'reversed(reversed)': lambda xs: reversed(list(reversed(xs))),
+        'dict values': lambda xs: {k: x for k, x in enumerate(xs)}.values(), 'deque': lambda xs: _c.deque(xs), 'filter': lambda xs: filter(lambda x: True, xs),
+    }
+    for cls, elems_, conv in ((TractList, good_t + [t1], ids), (TRSList, ['154n97w14', t1, TRS('1n1w01'), '154n97w14'], lambda l: [e.trs for e in l])):
+        want = conv(cls(list(elems_)))
+        for kname, mk in kinds.items():
+            for how in ('constructor', 'extend', '+=', '+'):
+                if how == 'constructor':
+                    got = cls(mk(elems_))
+                elif how == 'extend':
+                    got = cls()
+                    got.extend(mk(elems_))
+                elif how == '+=':
+                    got = cls()
+                    got += mk(elems_)
+                else:
+                    got = cls() + mk(elems_)
+                if conv(got) != want or (cls is TRSList and not all(isinstance(e, TRS) for e in got)):
+                    rep.violation('failing-input', {'op': f'{cls.__name__} {how} from a {kname}', 'why': 'not every supplied element is in '
+                                                    'the container, in order (and no TypeError was raised)', 'observed_length': len(got),
+                                                    'expected_length': len(want)})
+                rep.count()
     # a container built from another container of the same class is a new list: later in-place operations on
     # either one must not make the other lose (or gain) elements
     for cls, elems_ in ((TractList, good_t + [t1]), (TRSList, ['154n97w14', '1n1w01', 'XXXzXXXzXX', '154n97w14'])):
